@@ -105,23 +105,23 @@ func (ex *Exec) pushPrefix(p []uint16) { ex.q.pushItem(workItem{h: ex.curH, pref
 // ---------------------------------------------------------------- statistics
 
 type Stats struct {
-	paths        int64
-	infeasible   int64
-	inconclusive map[string]int64
-	unwind       int64
-	deadline     int64
-	forks        int64
-	fast         int64
-	instrs       int64
-	obligations  int64
-	discharged   int64
+	paths         int64
+	infeasible    int64
+	inconclusive  map[string]int64
+	unwind        int64
+	deadline      int64
+	forks         int64
+	fast          int64
+	instrs        int64
+	obligations   int64
+	discharged    int64
 	assertUnknown int64
-	funcs        map[string]bool
-	perHarness   map[string]int64
-	covers       map[string]int64
-	samples      []Sample
-	validate     []*Vector
-	validateSeen int64
+	funcs         map[string]bool
+	perHarness    map[string]int64
+	covers        map[string]int64
+	samples       []Sample
+	validate      []*Vector
+	validateSeen  int64
 }
 
 type Sample struct {
@@ -172,17 +172,17 @@ func (s *Stats) merge(o *Stats) {
 // ---------------------------------------------------------------- violations
 
 type Vector struct {
-	Property  string      `json:"property"`
-	Harness   string      `json:"harness"`
-	Tier      int         `json:"tier"`
-	Values    []VecValue  `json:"values"`
-	Predicted *Predicted  `json:"predicted,omitempty"`
-	Notes     []NoteOut   `json:"notes,omitempty"`
-	ID        int         `json:"id,omitempty"`
-	Covers    []string    `json:"covers,omitempty"`
-	RepoHead  string      `json:"repo_head,omitempty"`
-	Signature string      `json:"signature,omitempty"`
-	Inputs    []string    `json:"inputs_readable,omitempty"`
+	Property  string     `json:"property"`
+	Harness   string     `json:"harness"`
+	Tier      int        `json:"tier"`
+	Values    []VecValue `json:"values"`
+	Predicted *Predicted `json:"predicted,omitempty"`
+	Notes     []NoteOut  `json:"notes,omitempty"`
+	ID        int        `json:"id,omitempty"`
+	Covers    []string   `json:"covers,omitempty"`
+	RepoHead  string     `json:"repo_head,omitempty"`
+	Signature string     `json:"signature,omitempty"`
+	Inputs    []string   `json:"inputs_readable,omitempty"`
 }
 
 type VecValue struct {
@@ -529,13 +529,13 @@ func (ex *Exec) runPath(it workItem, harnessNames []string, cfg *runConfig) {
 // ---------------------------------------------------------------- exploring a set of harnesses
 
 type exploreResult struct {
-	stats      *Stats
-	viols      *violSet
-	unexplored int
+	stats               *Stats
+	viols               *violSet
+	unexplored          int
 	sat, unsat, unknown int64
-	solverTime time.Duration
-	wall       time.Duration
-	workers    int
+	solverTime          time.Duration
+	wall                time.Duration
+	workers             int
 }
 
 func explore(w *World, harnessNames []string, cfg *runConfig, workers int, solverBin string) *exploreResult {
